@@ -225,6 +225,105 @@ def gen_json_texts(ctx):
     return out
 
 
+def gen_native_keys(ctx):
+    """(name, joserfc key whose dict view is produced by the EXPORTER, {member: (number, bits|None)}).
+    RSA keys are built from chosen private numbers so that d, dp, dq (and, by search, qi)
+    are shorter than their field; EC keys are searched for a coordinate with a leading
+    zero octet."""
+    import math, warnings
+    from cryptography.hazmat.primitives.asymmetric import rsa, ec
+    from cryptography.hazmat.primitives import serialization as ser
+    from joserfc.jwk import RSAKey, ECKey
+    rng = ctx.rng
+
+    def rsa_entry(name, key):
+        pn = key.private_numbers()
+        nlen = (pn.public_numbers.n.bit_length() + 7) // 8
+        nums = {"n": (pn.public_numbers.n, None), "e": (pn.public_numbers.e, None), "d": (pn.d, None),
+                "p": (pn.p, None), "q": (pn.q, None), "dp": (pn.dmp1, None), "dq": (pn.dmq1, None), "qi": (pn.iqmp, None)}
+        for m in ("n", "e", "d"):
+            nums[m + "#field"] = nlen
+        for m in ("p", "q", "dp", "dq", "qi"):
+            nums[m + "#field"] = (nlen + 1) // 2
+        out = []
+        with warnings.catch_warnings():
+            warnings.simplefilter("ignore")
+            for enc, fmt, tag in ((ser.Encoding.PEM, ser.PrivateFormat.PKCS8, "pem"), (ser.Encoding.DER, ser.PrivateFormat.TraditionalOpenSSL, "der")):
+                try:
+                    out.append(("%s/%s" % (name, tag), RSAKey.import_key(key.private_bytes(enc, fmt, ser.NoEncryption())), nums))
+                except Exception:
+                    pass
+        return out
+
+    res = []
+    found_qi = 0
+    tries = ctx.scale(40, 400)
+    for i in range(tries):
+        k = rsa.generate_private_key(65537 if i % 3 else 3, 1024 if i % 5 else 1032)
+        pn = k.private_numbers()
+        flen = (pn.public_numbers.n.bit_length() + 7) // 8
+        short = [m for m, v, f in (("d", pn.d, flen), ("dp", pn.dmp1, (flen + 1) // 2), ("dq", pn.dmq1, (flen + 1) // 2), ("qi", pn.iqmp, (flen + 1) // 2))
+                 if (v.bit_length() + 7) // 8 < f]
+        if "qi" in short:
+            found_qi += 1
+        if short or i < 3:
+            res += rsa_entry("rsa-gen-%d%s" % (i, "-short-" + "+".join(short) if short else ""), k)
+        if i < ctx.scale(4, 12):
+            # chosen short private exponent: d of `db` bits => d, dp, dq all far shorter than their fields
+            p, q = pn.p, pn.q
+            lam = (p - 1) * (q - 1) // math.gcd(p - 1, q - 1)
+            db = rng.choice([17, 64, 200, 400, 500])
+            while True:
+                d = rng.getrandbits(db) | 1 | (1 << (db - 1))
+                if math.gcd(d, lam) == 1:
+                    break
+            e = pow(d, -1, lam)
+            try:
+                k2 = rsa.RSAPrivateNumbers(p, q, d, rsa.rsa_crt_dmp1(d, p), rsa.rsa_crt_dmq1(d, q), rsa.rsa_crt_iqmp(p, q),
+                                           rsa.RSAPublicNumbers(e, p * q)).private_key()
+                res += rsa_entry("rsa-short-d%d-%d" % (db, i), k2)
+            except Exception:
+                pass
+    # one key through the library's own generator
+    try:
+        jk = RSAKey.generate_key(2048, private=True, auto_kid=False)
+        pn = jk.raw_value.private_numbers()
+        flen = 256
+        nums = {"n": (pn.public_numbers.n, None), "e": (pn.public_numbers.e, None), "d": (pn.d, None), "p": (pn.p, None),
+                "q": (pn.q, None), "dp": (pn.dmp1, None), "dq": (pn.dmq1, None), "qi": (pn.iqmp, None)}
+        for m in ("n", "e", "d"):
+            nums[m + "#field"] = flen
+        for m in ("p", "q", "dp", "dq", "qi"):
+            nums[m + "#field"] = flen // 2
+        res.append(("rsa-2048-library-generated", jk, nums))
+    except Exception:
+        pass
+    ctx.coverage["jwk_export_rsa_short_qi_keys"] = found_qi
+    # EC: every curve, incl. keys with a leading zero octet in a coordinate
+    for crv, cls, bits in (("P-256", ec.SECP256R1, 256), ("P-384", ec.SECP384R1, 384), ("P-521", ec.SECP521R1, 521), ("secp256k1", ec.SECP256K1, 256)):
+        got_short = 0
+        for i in range(ctx.scale(300, 1500)):
+            k = ec.generate_private_key(cls())
+            pn = k.private_numbers()
+            L = (bits + 7) // 8
+            vals = {"x": pn.public_numbers.x, "y": pn.public_numbers.y, "d": pn.private_value}
+            short = [m for m, v in vals.items() if (v.bit_length() + 7) // 8 < L]
+            if not short and i >= 2:
+                continue
+            if short:
+                got_short += 1
+            try:
+                with warnings.catch_warnings():
+                    warnings.simplefilter("ignore")
+                    jk = ECKey.import_key(k.private_bytes(ser.Encoding.PEM, ser.PrivateFormat.PKCS8, ser.NoEncryption()))
+            except Exception:
+                continue
+            res.append(("ec-%s-%d%s" % (crv, i, "-short-" + "+".join(short) if short else ""), jk, {m: (v, bits) for m, v in vals.items()}))
+            if got_short >= ctx.scale(2, 6):
+                break
+    return res
+
+
 def run(ctx):
     from joserfc import util
     from joserfc.rfc7518 import util as util2
@@ -337,6 +436,53 @@ def run(ctx):
         dist["b2i"] += 1
         ctx.note_case(("b2i", s))
         add("CB2I %s %s" % (c_hex(s.encode("ascii")), c_res(b, c_Z)), ("b2i", s))
+    # ---- integers at the JWK EXPORT sites (observe_at: members of exported JWKs): the
+    # member emitted for a native number must be the model's int_to_base64 of it (RSA:
+    # minimal Base64urlUInt) resp. the fixed-width form of the curve (EC, RFC 7518 6.2.1.2);
+    # keys are built natively (cryptography) and imported as PEM so that the exporter runs.
+    dist.update({"jwk_rsa_members": 0, "jwk_rsa_short_members": 0, "jwk_ec_members": 0, "jwk_keys": 0})
+    for name, key, numbers in gen_native_keys(ctx):
+        dist["jwk_keys"] += 1
+        for private in (True, False):
+            got = call(lambda: key.as_dict(private=private))
+            if got[0] != "ok":
+                if private and not key.is_private:
+                    continue
+                ctx.violation({"kind": "jwk-export-raises"}, "as_dict(private=%s) of %s raised %r" % (private, name, got[1]),
+                              {"fn": "jwk-export", "key": name})
+                continue
+            d = got[1]
+            for m, zb in numbers.items():
+                if "#" in m or m not in d:
+                    continue
+                z, bits = zb
+                txt = d[m]
+                ctx.note_case(("jwk-member", name, m, private))
+                raw = call(util.urlsafe_b64decode, txt.encode("ascii"))
+                back = call(util.base64_to_int, txt)
+                if raw[0] != "ok" or back[0] != "ok" or back[1] != z:
+                    ctx.violation({"kind": "jwk-int-roundtrip"}, "member %s of %s does not decode to the key's number" % (m, name),
+                                  {"fn": "jwk-member", "key": name, "member": m, "text": txt, "number": str(z)})
+                    continue
+                if bits is None:                                   # RSA: minimal Base64urlUInt
+                    dist["jwk_rsa_members"] += 1
+                    L = (z.bit_length() + 7) // 8
+                    if L < numbers[m + "#field"]:
+                        dist["jwk_rsa_short_members"] += 1
+                    add("CI2B %s %s" % (c_Z(z), c_res(("ok", txt), lambda t: c_hex(t.encode("ascii")))), ("jwk-i2b", name, m))
+                    if len(raw[1]) != L or raw[1][:1] == b"\x00" or "=" in txt or txt != util.int_to_base64(z):
+                        ctx.violation({"kind": "jwk-int-minimal"},
+                                      "member %s of the exported JWK of %s is %d octets, the minimal big-endian form of the number has %d" % (m, name, len(raw[1]), L),
+                                      {"fn": "jwk-member", "key": name, "member": m, "text": txt, "number": str(z),
+                                       "rsa_numbers": {k: str(v[0]) for k, v in numbers.items() if "#" not in k}})
+                else:                                              # EC: full-size coordinate
+                    dist["jwk_ec_members"] += 1
+                    add("CEncInt %s %s %s" % (c_Z(z), c_N(bits), c_res(("ok", raw[1]), c_hex)), ("jwk-fixed", name, m))
+                    add("CEnc %s %s" % (c_hex(raw[1]), c_hex(txt.encode("ascii"))), ("jwk-enc", name, m))
+                    if len(raw[1]) != (bits + 7) // 8:
+                        ctx.violation({"kind": "jwk-fixed-width"},
+                                      "member %s of the exported JWK of %s is %d octets, the curve size is %d" % (m, name, len(raw[1]), (bits + 7) // 8),
+                                      {"fn": "jwk-member", "key": name, "member": m, "text": txt})
     # ---- fixed-width codec
     for num, bits in gen_encode_int(ctx):
         r = call(util2.encode_int, num, bits)
@@ -464,5 +610,16 @@ def replay(path):
         e = util.urlsafe_b64encode(x)
         print(e, call(util.urlsafe_b64decode, e))
         return 0 if call(util.urlsafe_b64decode, e) == ("ok", x) else 1
+    if fn == "jwk-member" and "rsa_numbers" in r:
+        from cryptography.hazmat.primitives.asymmetric import rsa
+        from cryptography.hazmat.primitives import serialization as ser
+        from joserfc.jwk import RSAKey
+        n = {k: int(v) for k, v in r["rsa_numbers"].items()}
+        k = rsa.RSAPrivateNumbers(n["p"], n["q"], n["d"], n["dp"], n["dq"], n["qi"], rsa.RSAPublicNumbers(n["e"], n["n"])).private_key()
+        jk = RSAKey.import_key(k.private_bytes(ser.Encoding.PEM, ser.PrivateFormat.PKCS8, ser.NoEncryption()))
+        d = jk.as_dict(private=True)
+        bad = [m for m in n if d[m] != util.int_to_base64(n[m]) or util.urlsafe_b64decode(d[m].encode())[:1] == b"\x00"]
+        print("members not in minimal form:", bad)
+        return 1 if bad else 0
     print("see the replay file for the failing case")
     return 1
